@@ -404,13 +404,22 @@ double Date::localOffset() const
 		t = t - floor(t / y - 2) * y;
 	}
 	time_t     tm = (time_t)t;
+#ifdef _WIN32
 	struct tm* tmL = localtime(&tm);
+#else
+	struct tm  tmLbuf, tmUbuf; // localtime()/gmtime() share static storage between threads
+	struct tm* tmL = localtime_r(&tm, &tmLbuf);
+#endif
 	if (!tmL)
 		return 0;
 	int        hL = tmL->tm_hour;
 	int        dL = tmL->tm_yday;
 	int        yL = tmL->tm_year;
+#ifdef _WIN32
 	struct tm* tmU = gmtime(&tm);
+#else
+	struct tm* tmU = gmtime_r(&tm, &tmUbuf);
+#endif
 	int        hU = tmU->tm_hour;
 	int        dU = tmU->tm_yday;
 	int        yU = tmU->tm_year;
